@@ -15,7 +15,7 @@
 (* are done.  Deferred entries are all "top" (no selected directory above them), hence never below a    *)
 (* directory that is renamed later.                                                                      *)
 From Tempren Require Import Base.Str Py.PathLib FS.Model FS.Lemmas FS.PlainPaths FS.WfCheck.
-From Tempren Require Import Pipe.Pipeline Pipe.DestParent Pipe.DrySim Pipe.DryEqualsReal Pipe.DryEqualsRealCheck Pipe.DryEqualsRealDir.
+From Tempren Require Import Pipe.Pipeline Pipe.DestParent Pipe.BacklogVerify Pipe.DrySim Pipe.DryEqualsReal Pipe.DryEqualsRealCheck Pipe.DryEqualsRealDir.
 Open Scope N_scope.
 
 (* ---------- the statement's vocabulary --------------------------------------------------------- *)
@@ -217,11 +217,21 @@ Hypothesis anc_up : forall a, anc a -> anc (removelast a).
 Definition new_name (f : pfile) (t : str) : ppath :=
   {| pp_root := pp_root (pf_rel f); pp_parts := removelast (pp_parts (pf_rel f)) ++ [t] |}.
 
+(* the containment tests run again before a deferred entry is retried (F38) say yes on every tree on which the
+   entry is as plain as it was on the tree it was deferred on *)
+Definition retest_plain (d : rpath) (src dst : ppath) : Prop :=
+  forall x, WF x -> plain_rel x d src -> plain_rel x d dst -> not_link (lookup x (d ++ pp_parts dst)) ->
+  backlog_verify fixed x d src dst = None.
+Definition retest_dd (d : rpath) (src dst : ppath) : Prop :=
+  forall x, WF x -> plain_rel x d src -> dd_rel x d dst (removelast (pp_parts src)) ->
+  backlog_verify fixed x d src dst = None.
+
 (* what is known about the destination of a deferred entry *)
 Definition dst_info (f : pfile) (t : str) (np : ppath) : Prop :=
   np = new_name f t /\
-  ((t <> dotdot /\ plain_rel s0 (pf_dir f) np /\ removelast (pp_parts np) = removelast (pp_parts (pf_rel f))) \/
-   (t = dotdot /\ dd_rel s0 (pf_dir f) np (removelast (pp_parts (pf_rel f))))).
+  ((t <> dotdot /\ plain_rel s0 (pf_dir f) np /\ removelast (pp_parts np) = removelast (pp_parts (pf_rel f)) /\
+    not_link (lookup s0 (pf_dir f ++ pp_parts np)) /\ retest_plain (pf_dir f) (pf_rel f) np) \/
+   (t = dotdot /\ dd_rel s0 (pf_dir f) np (removelast (pp_parts (pf_rel f))) /\ retest_dd (pf_dir f) (pf_rel f) np)).
 
 Lemma simd_head f r wd wr cwd :
   SimD s0 st anc wd wr -> ready_src s0 anc (pf_dir f) (pf_rel f) ->
@@ -258,8 +268,10 @@ Proof.
     assert (Pdd : dd_rel s0 (pf_dir f) np (removelast (pp_parts (pf_rel f)))) by (rewrite Enp; apply dd_rel_dest; assumption).
     pose proof (dd_rel_real _ _ _ _ _ _ _ _ HS Pdd Ha) as Pdd'.
     rewrite (contained_dd s0 f np _ W0 Pdd), (contained_dd (w_fs wr) f np _ Wr Pdd').
-    destruct (is_prefix_path (pf_dir f) (removelast (pf_dir f ++ removelast (pp_parts (pf_rel f))))).
+    destruct (is_prefix_path (pf_dir f) (removelast (pf_dir f ++ removelast (pp_parts (pf_rel f))))) eqn:IP.
     2:{ split; [reflexivity | split; [reflexivity | assumption]]. }
+    assert (Rtd : retest_dd (pf_dir f) (pf_rel f) np).
+    { intros x Wx Psx Pddx. exact (verify_yes_dd x MDirectory f _ np _ Wx G eq_refl Psx Pddx IP). }
     rewrite (dest_parent_test_generated fixed _ s0 f _ np G eq_refl (source_contained_rel s0 f W0 Ps)),
             (dest_parent_test_generated fixed _ (w_fs wr) f _ np G eq_refl (source_contained_rel (w_fs wr) f Wr Ps')).
     rewrite (parents_contained_dd s0 f np _ W0 Pdd), (parents_contained_dd (w_fs wr) f np _ Wr Pdd').
@@ -268,7 +280,7 @@ Proof.
     rewrite Xd, Xr. cbn [is_file_exists].
     split; [reflexivity|]. split; [reflexivity|]. split; [assumption|].
     exists dotdot, ExDestExists. split; [reflexivity|]. split; [|split; [exact Xd | reflexivity]].
-    split; [assumption|]. right. split; [reflexivity | assumption].
+    split; [assumption|]. right. split; [reflexivity | split; assumption].
   - assert (Ht : t <> dotdot) by (intros E; apply name_eqb_eq in E; congruence).
     assert (Pd : plain_rel s0 (pf_dir f) np) by (rewrite Enp; apply plain_rel_dest; assumption).
     assert (Epar : removelast (pp_parts np) = removelast (pp_parts (pf_rel f))).
@@ -282,8 +294,10 @@ Proof.
       destruct (exists_last (pr_ne _ _ _ Pd)) as [pre [y Ey]]. rewrite Ey in *. rewrite removelast_snoc in Ha2.
       rewrite app_assoc in *. apply (NLd i tg). exact (sd_nl _ _ _ _ _ HS _ _ _ _ Ha2 K). }
     rewrite (contained_rel (w_fs wr) f np Wr Pd' NLr).
-    destruct (is_prefix_path (pf_dir f) (pf_dir f ++ pp_parts np)).
+    destruct (is_prefix_path (pf_dir f) (pf_dir f ++ pp_parts np)) eqn:IP.
     2:{ split; [reflexivity | split; [reflexivity | assumption]]. }
+    assert (Rtp : retest_plain (pf_dir f) (pf_rel f) np).
+    { intros x Wx Psx Pdx NLx. exact (verify_yes_plain x MDirectory f _ np Wx G eq_refl Psx Pdx NLx IP). }
     rewrite (dest_parent_test_generated fixed _ s0 f _ np G eq_refl (source_contained_rel s0 f W0 Ps)),
             (dest_parent_test_generated fixed _ (w_fs wr) f _ np G eq_refl (source_contained_rel (w_fs wr) f Wr Ps')).
     rewrite (parents_contained_rel s0 f np W0 Pd), (parents_contained_rel (w_fs wr) f np Wr Pd').
@@ -295,7 +309,7 @@ Proof.
     + destruct (is_file_exists e) eqn:FE.
       * split; [reflexivity|]. split; [reflexivity|]. split; [assumption|].
         exists t, e. split; [reflexivity|]. split; [|split; [exact Rd | assumption]].
-        split; [assumption|]. left. split; [assumption|]. split; assumption.
+        split; [assumption|]. left. split; [assumption|]. split; [assumption|]. split; [assumption|]. split; assumption.
       * split; [reflexivity | split; [reflexivity | assumption]].
     + split; [reflexivity|]. split; [assumption|].
       exists t. split; [reflexivity|]. split; [assumption|]. rewrite <- Enp. split; [assumption | exact Rd].
@@ -354,8 +368,9 @@ Proof. apply SimD_weaken. intros a [k [[] _]]. Qed.
 Definition entry2 (b : backlog_entry) : Prop :=
   let d := fst (fst b) in let src := snd (fst b) in let dst := snd b in
   from_plan (bkey b) /\ top (bkey b) /\ plain_rel s0 d src /\ lookup s0 (bkey b) = Some NDir /\
-  ((plain_rel s0 d dst /\ removelast (pp_parts dst) = removelast (pp_parts src)) \/
-   dd_rel s0 d dst (removelast (pp_parts src))).
+  ((plain_rel s0 d dst /\ removelast (pp_parts dst) = removelast (pp_parts src) /\
+    not_link (lookup s0 (d ++ pp_parts dst)) /\ retest_plain d src dst) \/
+   (dd_rel s0 d dst (removelast (pp_parts src)) /\ retest_dd d src dst)).
 
 Lemma ready_src_A K d src :
   In (d ++ pp_parts src) K -> from_plan (d ++ pp_parts src) -> plain_rel s0 d src ->
@@ -398,11 +413,28 @@ Proof.
         + unfold bkey in E2. cbn [fst snd] in E2. subst k2. apply proper_prefix_irrefl.
         + apply in_map_iff in H2 as [b2 [E2 H2]]. subst k2.
           rewrite Forall_forall in PB'. exact (top_not_below b2 _ (PB' _ H2) Fp). }
-    assert (RD : ready s0 (A K) (d, src, dst)).
-    { split; [exact RS|]. cbn [fst snd]. destruct Hdst as [Hp|Hdd]; [left; assumption | right].
-      exists (removelast (pp_parts src)). split; [assumption|]. exact (proj1 (proj2 (proj2 RS))). }
+    assert (RD : ready s0 st (A K) (d, src, dst)).
+    { split; [exact RS|]. cbn [fst snd]. split.
+      - destruct Hdst as [[Pd [Epar _]]|[Pdd _]]; [left; split; assumption | right].
+        exists (removelast (pp_parts src)). split; [assumption|]. exact (proj1 (proj2 (proj2 RS))).
+      - pose proof (proj1 (proj2 (proj2 RS))) as Ha.
+        destruct Hdst as [[Pd [Epar [NLd Rt]]]|[Pdd Rt]]; split; cbn [fst snd].
+        + exact (Rt s0 W0 Ps Pd NLd).
+        + intros wd2 wr2 HS2.
+          assert (Ha2 : A K (d ++ removelast (pp_parts dst))) by (rewrite Epar; exact Ha).
+          apply (Rt (w_fs wr2) (sd_wf _ _ _ _ _ HS2) (plain_rel_real _ _ _ _ _ _ _ HS2 Ps Ha)
+                    (plain_rel_real _ _ _ _ _ _ _ HS2 Pd Ha2)).
+          intros i tg K0.
+          destruct (exists_last (pr_ne _ _ _ Pd)) as [pre [y Ey]]. rewrite Ey in *. rewrite removelast_snoc in Ha2.
+          rewrite app_assoc in *. apply (NLd i tg). exact (sd_nl _ _ _ _ _ HS2 _ _ _ _ Ha2 K0).
+        + exact (Rt s0 W0 Ps Pdd).
+        + intros wd2 wr2 HS2.
+          exact (Rt (w_fs wr2) (sd_wf _ _ _ _ _ HS2) (plain_rel_real _ _ _ _ _ _ _ HS2 Ps Ha)
+                    (dd_rel_real _ _ _ _ _ _ _ _ HS2 Pdd Ha)). }
     cbn [dD dR c_var fixed v_backlog_chdir].
     destruct (chdir_simd s0 st (A K) W0 (A_dir K) _ _ _ _ HS (proj1 RS) Ps) as [-> ->].
+    pose proof (proj2 (proj2 RD)) as [Rt0 Rt]. cbn [fst snd] in Rt0, Rt.
+    rewrite (sd_fs _ _ _ _ _ HS). rewrite Rt0, (Rt _ _ HS).
     destruct (renamer (dD st answers) wd d src dst false) as [wd1 ed1] eqn:Rd.
     destruct (renamer (dR st answers) wr d src dst false) as [wr1 er1] eqn:Rr.
     destruct (simd_renamer_ready s0 st answers (A K) W0 (A_up K) _ _ _ _ _ _ _ _ _ HS RD Rd Rr) as [E S1]. subst er1.
@@ -505,7 +537,8 @@ Proof.
           apply (first_pass_backlog_mono _ _ _ _ _ _ _ _ _ Ed). left. reflexivity. }
       assert (E2 : entry2 (pf_dir f, pf_rel f, np)).
       { unfold entry2, bkey. cbn [fst snd]. split; [exact Fp|]. split; [exact Tp|]. split; [assumption|]. split; [assumption|].
-        destruct Dst as [[_ [Pd Epar]]|[_ Pdd]]; [left; split; assumption | right; assumption]. }
+        destruct Dst as [[_ [Pd [Epar [NLd Rtp]]]]|[_ [Pdd Rtd]]];
+          [left; split; [assumption|]; split; [assumption|]; split; assumption | right; split; assumption]. }
       revert Ed Er.
       apply (IH (pre ++ [(f, RText t)])); try assumption.
       * constructor; assumption.
